@@ -14,6 +14,7 @@ CONSTANTS
   MaxSt = 3
   MaxLd = 2
   MaxLen = 4
+  Template <- NoTemplate
   Q = {}
   Clauses <- AllClauses
   Probe = FALSE
